@@ -130,4 +130,31 @@ func checkC17(c *vk.Ctx) {
 	h.run(c)
 	c.MinEvents["publish_denied"] = 100
 	c.MinEvents["read_denied_deliveries"] = 50
+	// wills that wait for their delay: the write permission must hold whichever way the will ends up being published
+	// (delay elapsed, session expired first, clean-start reconnect before the delay elapsed)
+	p2 := sessionProfile()
+	p2.Name = "acl-delayed-will"
+	p2.IDs = []string{"c0", "c1", "w"}
+	p2.SlotIDs = []int{0, 1, 2}
+	p2.NoSelfTakeover = true
+	p2.Versions = []byte{5, 5, 4}
+	p2.WillPct = 85
+	p2.WillTopics = []string{"will/a", "will/b", "$SYS/w"}
+	p2.WillDelay = []uint32{0, 150, 150}
+	p2.Topics = []string{"a", "will/a"}
+	p2.Filters = []string{"will/#", "a", "#"}
+	p2.SlotFilters = map[int][]string{0: {"a"}, 1: {"a"}, 2: {"will/#", "#", "will/a"}}
+	p2.NoWillSlots = map[int]bool{2: true}
+	p2.Expiry = []uint32{0, 150, 350}
+	p2.CleanPct = 50
+	p2.RetainPct = 40
+	p2.RAPPct = 80
+	p2.DenyPct = 40
+	p2.TickDelta = []int64{100, 100, 200}
+	p2.HowDisc = []string{"normal", "will", "drop", "drop"}
+	p2.W = map[string]int{"connect": 8, "subscribe": 4, "publish": 3, "disconnect": 7, "tick": 5}
+	h2 := &histRun{Prop: "C17", Profile: p2, N: c.N(250, 6000), Label: 1702, Nontrivial: []string{"will_refused"},
+		Rules: []string{"C17/", "C03/unentitled-delivery", "C05/retained-not-sent", "C16/will-published"}}
+	h2.run(c)
+	c.MinEvents["will_refused"] = 50
 }
